@@ -70,3 +70,13 @@ contract("gherkin.gherkin_line.GherkinLine.split_table_cells",
                      serves=["C12", "C04"]),
              ],
              variant=lambda row, col: len(row) + 2 - col)})
+
+contract("gherkin.gherkin_line.GherkinLine.table_cells",
+         args=dict(self="GherkinLine"),
+         returns=ListOf("gherkin_line.Cell"),
+         ensures=[clause("cells", lambda self, result: result == spec_cells(self._trimmed_line_text, self.indent),
+                         serves=["C12", "C04"])],
+         loops={0: loop(
+             invariant=[clause("acc", lambda cells, _i, _seq, self: len(cells) == _i and forall(
+                 _i, lambda j: cells[j] == cell_of(_seq[j][0], _seq[j][1], self.indent)), serves=["C12", "C04"])],
+             types=dict(cells=MutList("gherkin_line.Cell")))})
